@@ -115,6 +115,12 @@ def stale_analysis(ctx: Ctx, rule: str, qualname: str, elem_param: str, initiall
                '' if ok else f'element argument is `{text(a)}`: context.elem may still designate a descendant, so the error would be '
                f'located at the wrong node', key=f'{qualname}|stale|{meth}|{text(c.args[2])[:30] if len(c.args) > 2 else ""}|{"" if ok else text(a)}')
     ctx.floor(rule, f'reports reachable after recursion in {short}', n_after, floor)
+    # attribute decoding reports through context.elem (its `obj` is a mapping or a string, never the element): it runs while context.elem is fresh
+    for n, c in call_nodes(g, lambda c: isinstance(c.func, ast.Attribute) and c.func.attr == 'raw_decode' and text(c.func.value) in ('attribute_group', 'xsd_attribute')):
+        ok = not stale_in[n]
+        ctx.ob(rule, f'{short}: `{text(c)[:60]}` runs while context.elem designates the element that carries the attributes', f.loc(c), ok,
+               '' if ok else 'the attributes are decoded after a raw_decode call that descends into the children and nothing restores context.elem: an attribute error '
+               '(bad value, missing required, undeclared) is located at the last decoded descendant - path, elem and sourceline of another node', key=f'{qualname}|attributes-fresh')
 
 
 def rule_b(ctx: Ctx) -> None:
